@@ -93,12 +93,11 @@ Qed.
 (* ------------------------------------------------------------------ the sources the translator has just read are the repaired ones *)
 
 Lemma code_is_repaired_lemma :
-  (c_c05_guard_as_found, c_c05_once_as_found, c_c05_route_as_found, c_c05_uvkeys_as_found) = (0, 0, 0, 0)%N /\
+  (c_c05_guard_as_found, c_c05_once_as_found, c_c05_route_as_found, c_c05_uvkeys_as_found, c_c05_uvempty_as_found) = (0, 0, 0, 0, 0)%N /\
   (c_c05_pass_returns_session_depth, c_c05_default_flags_gw_and_nb) = (1, 1)%N /\ r_as_is = r_all_fixed /\
-  ((forall st, clause_keys st = clause_keys_with true st) \/ (forall st, clause_keys st = clause_keys_all st)).
+  (forall st, clause_keys st = clause_keys_all st).
 Proof.
-  split; [reflexivity|]. split; [reflexivity|]. split; [reflexivity|].
-  first [left; intros st; reflexivity | right; intros st; reflexivity].
+  split; [reflexivity|]. split; [reflexivity|]. split; [reflexivity|]. intros st; reflexivity.
 Qed.
 
 Lemma premises_satisfiable_lemma :
